@@ -326,7 +326,15 @@ def g7_equivalence_folding(ctx) -> None:
     if not init:
         raise AnalysisError("G7: the set of classes that stay visible does not start as {self.root}")
     nh = init[0][1]["_M_nh"]
-    lp = PT.find_all(f, f"for _M_r in self:\n    if _M_r.is_equivalence():\n        continue\n    {nh}.add(_M_r.comb_class)\n    {nh}.update(_M_r.children)")
+    lp = False
+    for loop in f.body:
+        if isinstance(loop, ast.For) and norm(loop.iter) in ("self", "self.rules_dict.values()") and isinstance(loop.target, ast.Name):
+            rv = loop.target.id
+            adds = [c for c in walk_local(loop) if isinstance(c, ast.Call) and norm(c) == f"{nh}.add({rv}.comb_class)"]
+            upds = [c for c in walk_local(loop) if isinstance(c, ast.Call) and norm(c) == f"{nh}.update({rv}.children)"]
+            # for a rule that is not an equivalence both happen, whatever else holds
+            if adds and upds and all(C.runs_under(f, c, {f"{rv}.is_equivalence()": False}, within=loop) is True for c in adds + upds):
+                lp = True
     if lp:
         ctx.ok("G7", "visible classes = the root and both sides of every rule that is not an equivalence")
     else:
